@@ -40,11 +40,15 @@ def run(cx):
     traces = []
     evals = 0
     nevents = 0
+    hung = []
     for r_ in vlib.read_ndjson(rout):
         res = r_["res"]
         if res.get("k") == "crash":
             cx.violation("concurrent evaluations on separate VMs killed the process (g=%d): %s" % (r_["g"], res.get("stderr", "")[:300]),
                          {"leg": "crash", "run": r_["id"], "goroutines": r_["g"], "stderr": res.get("stderr")})
+            continue
+        if res.get("k") == "hang":
+            hung.append(r_)
             continue
         if res.get("k") != "ok":
             cx.notes.append("run %s: driver result %s" % (r_["id"], str(res)[:150]))
@@ -58,6 +62,22 @@ def run(cx):
             cx.violation("a concurrent evaluation gave %r, alone it gives %r (program %d, %d goroutines)" % (
                 d["concurrent"][:120], d["sequential"][:120], d["program"], r_["g"]),
                 {"leg": "non-interference", "diff": d, "goroutines": r_["g"]})
+    # a run that did not finish: every evaluation in it has a 20 s deadline of its own and the whole run is given
+    # 180 s, so a run that hangs again when it is the only one on the machine has evaluations that block each other
+    if hung:
+        hin = cx.path("hung.ndjson")
+        vlib.write_ndjson(hin, [{"id": r_["id"], "g": r_["g"], "rounds": r_["rounds"], "dir": r_["dir"] + "_again"} for r_ in hung[:2]])
+        hout = cx.path("hung.out.ndjson")
+        cx.run([drv, "run", "-in", hin, "-out", hout, "-j", "1"], timeout=3000)
+        for r_ in vlib.read_ndjson(hout):
+            if r_["res"].get("k") == "hang":
+                cx.violation("%d goroutines evaluating on separate VMs (shared importer, shared code) never finished: the run hangs, "
+                             "again when repeated alone, although every evaluation has a 20 s deadline" % r_["g"],
+                             {"leg": "hang", "run": r_["id"], "goroutines": r_["g"]})
+            else:
+                cx.notes.append("run %s: hang not reproduced" % r_["id"])
+    if not traces and not cx.violations:
+        raise vlib.Inconclusive("no concurrent run finished")
     langlib.tlc_conform(cx, traces, spec="TraceRegistry", prefix="trace", strip=(), nshards=6)
     rejected = {}
     for d in sorted(x for x in os.listdir(cx.work) if x.startswith("tlc_trace_")):
